@@ -726,7 +726,7 @@ pub mod std {
             ensures
                 final(w).inv(),
                 final(w).kept(*old(w)) && final(w).listed == old(w).listed && final(w).published == old(w).published,
-                final(w).supplied == old(w).supplied && final(w).owned == old(w).owned && final(w).app_errors == old(w).app_errors,
+                final(w).supplied == old(w).supplied && final(w).owned == old(w).owned && final(w).app_errors == old(w).app_errors && final(w).app_not_found == old(w).app_not_found,
                 final(w).opens == old(w).opens && final(w).steps == old(w).steps + 1,
                 final(w).hard_faults == old(w).hard_faults + if r.is_err() { 1nat } else { 0nat },
                 final(w).files == old(w).files && final(w).dirs == old(w).dirs,
